@@ -367,8 +367,8 @@ Proof.
   - inversion Hn; subst. cbn [app coalesce_gen]. rewrite IH by assumption. cbn [length]. f_equal. lia.
 Qed.
 
-Lemma fix_layout_scalar : forall pinned m v, is_scalar v = true -> fix_layout_gen pinned m v = Ok v.
-Proof. intros pinned m v H. destruct v; try discriminate; reflexivity. Qed.
+Lemma fix_layout_scalar : forall listbug pad m v, is_scalar v = true -> fix_layout_gen listbug pad m v = Ok v.
+Proof. intros listbug pad m v H. destruct v; try discriminate; reflexivity. Qed.
 
 Lemma fix_layout_pinned_tuple_panics : forall m v vs, is_panic (fix_layout_pinned m (VTuple (v :: vs))) = true.
 Proof. intros [st li [ems|]] v vs; reflexivity. Qed.
